@@ -35,6 +35,23 @@ class Prepared:
             return False, 'trace and native run disagree'
         return True, ''
 
+    def insn_addrs(self):
+        """relocated instruction boundaries of generated user functions (llvm-objdump, independent of gimli/capstone)"""
+        if getattr(self, '_insns', None) is None:
+            import re
+            import subprocess
+            out = []
+            for sp in self.user_funcs:
+                for lo, hi in sp.ranges:
+                    txt = subprocess.run(['llvm-objdump-14', '-d', '--no-show-raw-insn', f'--start-address={lo:#x}',
+                                          f'--stop-address={hi:#x}', self.b.path], stdout=subprocess.PIPE, text=True).stdout
+                    for l in txt.splitlines():
+                        m = re.match(r'^\s*([0-9a-f]+):\s+\S', l)
+                        if m:
+                            out.append(int(m.group(1), 16) + self.base)
+            self._insns = sorted(set(out))
+        return self._insns
+
     def stmt_addrs(self, executed_only=None):
         """addresses of is_stmt rows with a real line in user functions (instruction boundaries)"""
         out = []
@@ -48,10 +65,10 @@ class Prepared:
         return sorted(set(out))
 
 
-def flow_program(idx, tc='1.89', opt=0, dwarf=4, pie=True, budget=1200, rec_depth=None):
+def flow_program(idx, tc='1.89', opt=0, dwarf=4, pie=True, budget=1200, rec_depth=None, signals=False):
     seed = common.seed() * 1000 + idx
-    name = f'flow{idx}'
-    src, side = flow.gen(seed, budget=budget, rec_depth=rec_depth)
+    name = f'flow{idx}' + ('s' if signals else '')
+    src, side = flow.gen(seed, budget=budget, rec_depth=rec_depth, signals=signals)
     cfg = corpus.Config(tc=tc, opt=opt, dwarf=dwarf, pie=pie)
     return corpus.compile_rust(name, src, cfg, side)
 
